@@ -9,10 +9,11 @@
 
 using jm::JVal;
 using namespace sonic_json;
+static std::string g_prop = "C19";  // C13: only the memory oracles (ledger, ASan, handover) report
 
 static vf::Counter c_pairs("(existing,text)-applications"), c_root_kinds("root-kind-combinations-seen"), c_key_kinds("matched-key-kind-combinations-seen"), c_undeclared("texts-with-undeclared-container-valued-keys"),
     c_repeat("repeated-applications(2..4 texts)"), c_pool("allocator:pool"), c_track("allocator:ledger"), c_arr_with_obj("shape:text-array-containing-object-onto-existing-object"),
-    c_deep("shape:merge-depth>=3"), c_ledger("ledger-quiescent-checks"), c_known_empty("known-shape:declared-nonempty-object<-empty-object");
+    c_deep("shape:merge-depth>=3"), c_ledger("ledger-quiescent-checks"), c_known_empty("known-shape:declared-nonempty-object<-empty-object"), c_handover("handover(Swap/move)-then-destroy-former-holder");
 
 enum K11 { qNull, qBool, qUint, qInt, qDbl, qStr, qEmptyArr, qArrScalars, qArrWithObj, qEmptyObj, qObj, qNumKinds };
 static const char* k11_name(int k) {
@@ -207,6 +208,10 @@ static bool apply_and_judge(Doc& d, JVal& model, const JVal& tv, vf::Rng& r, con
     vf::violation("not-serialisable-after-ParseSchema", ctx + " Dump()=" + vf::printable(dump, 200));
     return false;
   }
+  if (!jm::equal(got, want) && g_prop == "C13") {
+    model = got;  // merge semantics are C19's subject; keep following what the library holds
+    return true;
+  }
   if (!jm::equal(got, want)) {
     if (jm::equal(got, lenient)) {
       c_known_empty.add();
@@ -239,6 +244,7 @@ static void one_case(vf::Rng& r, const char* cfg, bool ledger) {
       su::build_node(static_cast<typename Doc::NodeType&>(d), e, d.GetAllocator(), &r, su::kStrCopy);
     }
     JVal model = e;
+    bool judged_ok = true;
     size_t reps = r.below(3) == 0 ? r.range(2, 4) : 1;
     if (reps > 1) c_repeat.add();
     for (size_t k = 0; k < reps; k++) {
@@ -247,10 +253,32 @@ static void one_case(vf::Rng& r, const char* cfg, bool ledger) {
       if (jm::has_dup_keys(tv) || jm::has_dup_keys(model)) break;
       if (und) c_undeclared.add();
       applications++;
-      if (!apply_and_judge(d, model, tv, r, cfg, trace)) break;
+      if (!apply_and_judge(d, model, tv, r, cfg, trace)) {
+        judged_ok = false;
+        break;
+      }
     }
     vf::distinct(vf::hash_str(trace));
     if (r.coin()) (void)d.Dump();
+    // the updated document handed on by Swap / move and its former holder destroyed: everything the new
+    // holder needs (nodes, both input-text buffers) must have travelled with it
+    if (judged_ok && r.below(3) == 0) {
+      c_handover.add();
+      Doc survivor;
+      bool by_swap = r.coin();
+      {
+        Doc holder(std::move(d));
+        if (by_swap) survivor.Swap(holder); else survivor = std::move(holder);
+      }
+      vf::note(by_swap ? "read-after-Swap-and-destroy" : "read-after-move-and-destroy");
+      JVal got;
+      std::string why;
+      if (!su::read_node(survivor, got, why) || !jm::equal(got, model))
+        vf::violation(std::string("handover-changed-document:") + (by_swap ? "Swap" : "move"), std::string(cfg) + ": " + jm::first_diff(got, model) + " history: " + vf::printable(trace, 300));
+      std::string dump = survivor.Dump();
+      jm::RefResult back = jm::ref_parse(dump);
+      if (!back.ok || !jm::equal(back.v, model)) vf::violation(std::string("handover-dump-differs:") + (by_swap ? "Swap" : "move"), vf::printable(dump, 200));
+    }
   }
   if (ledger) {
     c_ledger.add();
@@ -299,6 +327,8 @@ static void matrix_case(uint64_t i, vf::Rng& r, const char* cfg) {
 }
 
 int main(int argc, char** argv) {
+  for (int i = 1; i + 1 < argc; i++)
+    if (std::string(argv[i]) == "--prop") g_prop = argv[i + 1];
   std::vector<vf::Stream> S;
   S.push_back({"kind_matrix_pool", qNumKinds * qNumKinds * 2 * 8, qNumKinds * qNumKinds * 2 * 200, [](uint64_t i, vf::Rng& r) { c_pool.add(); matrix_case<su::PoolDoc>(i, r, "pool"); }});
   S.push_back({"kind_matrix_ledger", qNumKinds * qNumKinds * 2 * 8, qNumKinds * qNumKinds * 2 * 200, [](uint64_t i, vf::Rng& r) {
@@ -310,7 +340,7 @@ int main(int argc, char** argv) {
                  if (su::ledger_live()) vf::violation("ledger-leak", std::to_string(su::ledger_live()) + " blocks after one ParseSchema on a parsed document (kind matrix)");
                  su::ledger_reset();
                }});
-  S.push_back({"generated_pairs_pool", 20000, 1500000, [](uint64_t, vf::Rng& r) { c_pool.add(); one_case<su::PoolDoc>(r, "pool", false); }});
-  S.push_back({"generated_pairs_ledger", 20000, 1500000, [](uint64_t, vf::Rng& r) { c_track.add(); su::ledger_reset(); one_case<su::TrackDoc>(r, "ledger", true); }});
+  S.push_back({"generated_pairs_pool", 100000, 3000000, [](uint64_t, vf::Rng& r) { c_pool.add(); one_case<su::PoolDoc>(r, "pool", false); }});
+  S.push_back({"generated_pairs_ledger", 100000, 3000000, [](uint64_t, vf::Rng& r) { c_track.add(); su::ledger_reset(); one_case<su::TrackDoc>(r, "ledger", true); }});
   return vf::run(argc, argv, S);
 }
